@@ -4,7 +4,10 @@ from play_common import impl_exec, impl_exec_multi, classify, nontrivial  # noqa
 from common import Case
 
 TITLE = 'Only the seat on turn can play, only a card it holds; cards are conserved'
-REQUIRED = ['refused_out_of_turn', 'refused_not_held', 'accepted_iff', 'accepted_effect', 'refusal_changes_nothing', 'conservation', 'no_card_twice',
+LEAN_TARGETS = ['BridgeVerif.Props.C05', 'BridgeVerif.Translated.Play']
+AUDIT_PROPS = ['C05', 'Translated.Play']
+REQUIRED = ['Translated.Play.play_by_translated', 'Translated.Play.with_hands_play_translated', 'Translated.Play.observed_play_translated', 'Translated.Play.set_dummy_translated', 'Translated.Play.wf_with_hands_play', 'Translated.Play.wf_observed_play',
+            'refused_out_of_turn', 'refused_not_held', 'accepted_iff', 'accepted_effect', 'refusal_changes_nothing', 'conservation', 'no_card_twice',
             'after_52_all_empty', 'observed_refused_out_of_turn', 'observed_refused_not_held', 'observed_conservation']
 RULE = ('boards played to the end with faults injected at every position with fixed probability: a play by a seat not on '
         'turn (its own card, or the active seat\'s card), the active seat playing a card of another hand, or a card already '
